@@ -12,6 +12,10 @@ CLAIMED = {
    text="Kernel-checked theorems: BS (3 conventions), PS, WP, PR unitary over any commutative ring with conjugation and, instantiated at C=R×R, for every real angle; PERM unitary with u[p k,k]=1 for every size; the range wrap lands in range and moves by whole ranges, and whole ranges leave every matrix unchanged. The hand-written model is tied to /repo on every run by a correspondence stream (numeric and symbolic matrices, far out-of-range values, permutations, _check_value, bound parameters/expressions) evaluated by the extracted model.",
    note="Axioms: the three Coq.Reals axioms (sig_forall_dec, sig_not_dec, functional_extensionality_dep) for the real-angle and periodicity theorems; all other theorems closed.",
    tech="Coq proof (generic ring + Reals instance) + extracted-model differential correspondence"),
+ "C08": dict(cat="proof", ref="DESIGN.md §7 C08, Appendix A.4/B.4",
+   text="Kernel-checked theorems over exact rationals for ALL wire counts, maxima, photon numbers, tree depths, detector lists and input distributions: the recurrence of Detector._cond_probability equals C(w,k)·S(n,k)·k!/w^n (Stirling numbers by their recurrence) and sums to 1; Detector.detect keeps every reading below the maximum, folds every outcome at or above it into the maximum, reads nothing above it and has mass 1 (threshold reads min(n,1), PNR reads n); the beam-splitter tree with reflectivity 1/2 has the click law of 2^L equally likely wires, and for every reflectivity its law has mass 1 (binomial theorem); simulate_detectors is the product of the per-mode kernels, preserves total probability before filtering, reports the un-normalised kept mass as physical performance and returns a mass-1 distribution of states that pass the filter — for every detector list that is not all-PNR; for all-PNR lists the function returns its input before looking at the filter (refuted witness proved in Coq and replayed on /repo, recorded as an open finding). The hand-written model is tied to /repo on every run: exhaustive grid w<=8 x every maximum x n<=10 for Detector.detect/_cond_probability (also against an independent evaluation of the closed form), BS trees L<=3 x 6 reflectivities (leaf intensities of create_circuit and click law), random detector lists for get_detection_type/check_heralds_detectors, random mixtures x random input distributions x every filter value for simulate_detectors, and Processor.probs() with detectors.",
+   note="All 20 theorems closed under the global context. The SLOS computation inside BSLayeredPPNR.detect is not modelled (C02): the tree is modelled by its leaf intensities and the multinomial law, tied by the exhaustive tree stream.",
+   tech="Coq proof by induction (click-law recurrence, Stirling/binomial identities, list induction for the product kernel) + extracted-model differential correspondence"),
  "C01": dict(cat="proof", ref="DESIGN.md §7 C01",
    text="Kernel-checked theorems over any commutative ring, any nesting depth, offsets and mode count: the circuit matrix equals the ordered product of the leaves' matrices embedded at their absolute ranges (cmat_flatten), is unitary when the leaves are, merge = nest, barriers are neutral, add rejects exactly misfitting ranges. The model's construction semantics (add/merge/nest, //, @, barrier, copy) is tied to /repo by running random straight-line programs over named circuit variables on both sides and comparing every variable's matrix and component listing after every statement.",
    note="All theorems closed under the global context.",
